@@ -17,6 +17,7 @@ struct ProtoObs {
     // per direction (sender side index: 0 = client->server, 1 = server->client)
     std::vector<Bytes> sent[2];            // application payloads accepted by the sender's encode call, in order
     std::vector<Bytes> early_sent;         // client early data
+    bool fault_fired[2] = { false, false };  // any fault (including a drop with nothing after it) fired in this direction
     bool tampered[2] = { false, false };   // a modified/forged/replayed record was put on the wire toward the receiver of this direction
     size_t delivered_before_tamper[2] = { 0, 0 };   // receiver's delivered chunk count when the first tampered unit was handed over
     size_t delivered_bytes_before_tamper[2] = { 0, 0 };
@@ -37,6 +38,9 @@ struct ProtoObs {
     // encode attempts before completion
     int encode_ok_before_complete[2] = { 0, 0 };
     bool hs_done = false;
+    // ground truth from the harness: a well-formed fatal alert record was handed to this role while it read plaintext
+    bool fatal_alert_given[2] = { false, false }; int fatal_alert_desc[2] = { -1, -1 };
+    bool ccs_given[2] = { false, false };      // some change_cipher_spec record (honest or not) was handed to this role
     std::vector<SealRec> seals;
     std::vector<std::string> states;
     std::map<std::string, int64_t> counters;
@@ -58,6 +62,9 @@ class ProtoRun {
     bool pending_gap[2] = { false, false }, gap_is_mod[2] = { false, false }, swap_pending[2] = { false, false };
     Bytes held_b[2]; bool held_mod[2] = { false, false }, have_held[2] = { false, false };
     int encode_attempts = 0;
+    size_t next_honest[2] = { 0, 0 };      // TLS: index of the next honest record the receiver of this direction has not been given yet
+    uint64_t probe_next = 0;               // next probe sequence number (all probe kinds)
+    uint64_t seal_seq_at_death[2] = { 0, 0 };
 
     explicit ProtoRun(const Plan &p);
     ~ProtoRun();
